@@ -254,6 +254,9 @@ func (i *interpreter) runJob(p *program, jb job) jobResult {
 		prefix := i.work[len(i.work)-1]
 		i.work = i.work[:len(i.work)-1]
 		i.runPath(p, pkg, fn, prefix)
+		if os.Getenv("VX_PROGRESS") != "" && i.st.paths%200 == 0 {
+			fmt.Fprintf(os.Stderr, "progress: paths=%d pending=%d ok=%d last=%s/%s steps=%d decisions=%d solver=%v\n", i.st.paths, len(i.work), i.st.pathsOK, i.path.ended, i.path.endMsg, i.path.steps, len(i.path.trace), i.solver.wall)
+		}
 		if len(res.samples) < 3 && i.path.ended == "ok" {
 			res.samples = append(res.samples, i.pathSample())
 		}
